@@ -179,7 +179,7 @@ static Plan gen_merge(const std::string &prop, const std::string &tier, uint64_t
 	if (r.chance(1, 3)) pool.push_back(Bytes());	// the empty key
 	int shape = (int)r.below(5);	// 0 random subsets 1 identical 2 disjoint 3 one key shared by all 4 some empty
 	int mode = prop == "C05" ? 0 : (int)r.below(10);	// <6 merge, 6..7 no merge, 8..9 no merge + dupsort
-	p.seti("mode", mode < 6 ? 0 : mode < 8 ? 1 : 2);
+	p.seti("mode", mode < 6 ? (r.chance(1, 6) ? 3 : 0) : mode < 8 ? 1 : 2);	// 0 merge, 1 none, 2 none + dupsort, 3 merge + dupsort
 	int mfunc = r.chance(3, 5) ? MF_UNION : 1 + (int)r.below(MF_N - 1);
 	p.seti("mfunc", mfunc);
 	p.seti("nsrc_user", 0);
@@ -324,8 +324,10 @@ static RunResult exec_merge(const Plan &p)
 	res.ev.u(nsrc); res.ev.u(mode); res.ev.u(observe);
 
 	mtbl_merger_options *mo = mtbl_merger_options_init();
-	if (mode == 0) mtbl_merger_options_set_merge_func(mo, merge_union_cb, &mc);
-	if (mode == 2) mtbl_merger_options_set_dupsort_func(mo, dupsort_bytes_cb, nullptr);
+	if (mode == 3) { res.probes["merge-with-dupsort"]++; }
+	if (mode == 0 || mode == 3) mtbl_merger_options_set_merge_func(mo, merge_union_cb, &mc);
+	if (mode == 2 || mode == 3) mtbl_merger_options_set_dupsort_func(mo, dupsort_bytes_cb, nullptr);
+	if (mode == 3) mode = 0;	// same expected output as plain merging: the fold is order-independent
 	mtbl_merger *m = mtbl_merger_init(mo);
 	mtbl_merger_options_destroy(&mo);
 	for (auto &s : w.srcs) if (s.used) mtbl_merger_add_source(m, s.src);
